@@ -265,6 +265,7 @@ fn block_case(p1: Option<(usize, i16)>, p2: Option<(usize, i16)>) {
 // @oblig the bytes written are the T.81 F.1.2 coding of the block: DC difference category and bits, (run,size) symbols with a ZRL for every 16 zeros before a non-zero coefficient, EOB iff the block ends with zeros, padded with one bits and 0xFF-stuffed
 // @assume stubs: Vec::push / extend_from_slice write in place and assert a reserved capacity of 64 bytes suffices; BitWriter::new reserves it
 // @replay_search i16:-1023..1023:341 i16:-1023..1023:3 usize:0..33
+// @heavy yes
 // @outside progressive scans, restart intervals, extra_zero_runs fix-ups, larger coefficients and denser blocks
 #[kani::proof]
 #[kani::unwind(21)]
@@ -284,6 +285,7 @@ pub fn c17_sequential_block_zero_run_16() {
 // @oblig the bytes written are the T.81 F.1.2 coding of the block: DC difference category and bits, (run,size) symbols with a ZRL for every 16 zeros before a non-zero coefficient, EOB iff the block ends with zeros, padded with one bits and 0xFF-stuffed
 // @assume stubs: Vec::push / extend_from_slice write in place and assert a reserved capacity of 64 bytes suffices; BitWriter::new reserves it
 // @replay_search i16:-1023..1023:341 i16:-1023..1023:3 usize:0..33
+// @heavy yes
 // @outside progressive scans, restart intervals, extra_zero_runs fix-ups, larger coefficients and denser blocks
 #[kani::proof]
 #[kani::unwind(21)]
@@ -303,6 +305,7 @@ pub fn c17_sequential_block_zero_run_16_mid() {
 // @oblig the bytes written are the T.81 F.1.2 coding of the block: DC difference category and bits, (run,size) symbols with a ZRL for every 16 zeros before a non-zero coefficient, EOB iff the block ends with zeros, padded with one bits and 0xFF-stuffed
 // @assume stubs: Vec::push / extend_from_slice write in place and assert a reserved capacity of 64 bytes suffices; BitWriter::new reserves it
 // @replay_search i16:-1023..1023:341 i16:-1023..1023:3 usize:0..33
+// @heavy yes
 // @outside progressive scans, restart intervals, extra_zero_runs fix-ups, larger coefficients and denser blocks
 #[kani::proof]
 #[kani::unwind(21)]
@@ -322,6 +325,7 @@ pub fn c17_sequential_block_all_zero() {
 // @oblig the bytes written are the T.81 F.1.2 coding of the block: DC difference category and bits, (run,size) symbols with a ZRL for every 16 zeros before a non-zero coefficient, EOB iff the block ends with zeros, padded with one bits and 0xFF-stuffed
 // @assume stubs: Vec::push / extend_from_slice write in place and assert a reserved capacity of 64 bytes suffices; BitWriter::new reserves it
 // @replay_search i16:-1023..1023:341 i16:-1023..1023:3 usize:0..33
+// @heavy yes
 // @outside progressive scans, restart intervals, extra_zero_runs fix-ups, larger coefficients and denser blocks
 #[kani::proof]
 #[kani::unwind(21)]
@@ -341,6 +345,7 @@ pub fn c17_sequential_block_first() {
 // @oblig the bytes written are the T.81 F.1.2 coding of the block: DC difference category and bits, (run,size) symbols with a ZRL for every 16 zeros before a non-zero coefficient, EOB iff the block ends with zeros, padded with one bits and 0xFF-stuffed
 // @assume stubs: Vec::push / extend_from_slice write in place and assert a reserved capacity of 64 bytes suffices; BitWriter::new reserves it
 // @replay_search i16:-1023..1023:341 i16:-1023..1023:3 usize:0..33
+// @heavy yes
 // @outside progressive scans, restart intervals, extra_zero_runs fix-ups, larger coefficients and denser blocks
 #[kani::proof]
 #[kani::unwind(21)]
@@ -360,6 +365,7 @@ pub fn c17_sequential_block_zero_run_15() {
 // @oblig the bytes written are the T.81 F.1.2 coding of the block: DC difference category and bits, (run,size) symbols with a ZRL for every 16 zeros before a non-zero coefficient, EOB iff the block ends with zeros, padded with one bits and 0xFF-stuffed
 // @assume stubs: Vec::push / extend_from_slice write in place and assert a reserved capacity of 64 bytes suffices; BitWriter::new reserves it
 // @replay_search i16:-1023..1023:341 i16:-1023..1023:3 usize:0..33
+// @heavy yes
 // @outside progressive scans, restart intervals, extra_zero_runs fix-ups, larger coefficients and denser blocks
 #[kani::proof]
 #[kani::unwind(21)]
@@ -379,6 +385,7 @@ pub fn c17_sequential_block_zero_run_17() {
 // @oblig the bytes written are the T.81 F.1.2 coding of the block: DC difference category and bits, (run,size) symbols with a ZRL for every 16 zeros before a non-zero coefficient, EOB iff the block ends with zeros, padded with one bits and 0xFF-stuffed
 // @assume stubs: Vec::push / extend_from_slice write in place and assert a reserved capacity of 64 bytes suffices; BitWriter::new reserves it
 // @replay_search i16:-1023..1023:341 i16:-1023..1023:3 usize:0..33
+// @heavy yes
 // @outside progressive scans, restart intervals, extra_zero_runs fix-ups, larger coefficients and denser blocks
 #[kani::proof]
 #[kani::unwind(21)]
